@@ -18,6 +18,17 @@ from pathlib import Path, PurePath  # noqa: F401
 # S-expressions: atoms are str, lists are list
 
 
+_last_parse: list = [None, None]
+
+
+def parse_case(text: str) -> list:
+    """parse_seq with a one-entry memo (monitor / nontrivial / classify look at the same case in turn);
+    callers must not modify the result"""
+    if _last_parse[0] != text:
+        _last_parse[0], _last_parse[1] = text, parse_seq(text)
+    return _last_parse[1]
+
+
 def parse_seq(text: str) -> list:
     stack: list[list] = [[]]
     cur = ""
@@ -102,9 +113,21 @@ class Universe:
             def name(self) -> str:
                 return f"o{self.k}"
 
+            def __eq__(self, other):
+                return type(other) is type(self) and other.k == self.k
+
+            def __hash__(self):
+                return hash(("Obj1", self.k))
+
         class Obj2:
             def __init__(self, k: int) -> None:
                 self.k = k
+
+            def __eq__(self, other):
+                return type(other) is type(self) and other.k == self.k
+
+            def __hash__(self):
+                return hash(("Obj2", self.k))
 
         def body(ns, ann, defaults=None):
             ns["__module__"] = NS_MODULE
@@ -324,6 +347,70 @@ class Ctx:
         self.keep.append((generic, cls))
         return cls
 
+    def make_family(self, specs: list) -> None:
+        """C04: several related classes. `(class id (params…) (tp…) (attrs…) (spec gid)|(base bid)|-)`:
+        `spec gid` = specialisation of generic class gid with the `tp` arguments, `base bid` = subclass of class
+        bid declaring only the attributes that bid does not have."""
+        for e in specs:
+            spec = e[1:]
+            cid = int(spec[0])
+            rel = [x for x in spec if isinstance(x, list) and x and x[0] in ("spec", "base")]
+            if rel and rel[0][0] == "spec":
+                g = self.cls[int(rel[0][1])]
+                args = tuple(self.ann(ty) for _, ty in field(spec, "tp"))
+                self.cls[cid] = g[args if len(args) > 1 else args[0]]
+            elif rel and rel[0][0] == "base":
+                base = self.cls[int(rel[0][1])]
+                own = [a for a in field(spec, "attrs") if a[0] not in base.__ATTRIBUTES__]
+                ann = {n: self.ann(ty) for n, ty, _ in own}
+                dfl = {n: self.val(d) for n, _, d in own if d != "-"}
+
+                def body(ns, ann=ann, dfl=dfl):
+                    ns["__module__"] = NS_MODULE
+                    ns["__annotations__"] = ann
+                    ns.update(dfl)
+
+                self.cls[cid] = types.new_class(f"Gen{cid}", (base,), {}, body)
+            else:
+                self.make_class([spec[0], ["params", *field(spec, "params")], ["tp"], ["attrs", *field(spec, "attrs")]])
+            self.keep.append(self.cls[cid])
+
+    def ser_deep(self, x) -> str:  # noqa: C901, PLR0911, PLR0912
+        """identity-free serialisation (C04): nested State instances and objects by value"""
+        from haiway import MISSING
+
+        if x is None or x is MISSING or type(x) in (bool, int, float, str, bytes):
+            return self.ser(x)
+        t = type(x)
+        if t is list:
+            return show(["L", *[self.ser_deep(e) for e in x]])
+        if t is tuple:
+            return show(["T", *[self.ser_deep(e) for e in x]])
+        if t is set:
+            return show(["S", *sorted(self.ser_deep(e) for e in x)])
+        if t is frozenset:
+            return show(["F", *sorted(self.ser_deep(e) for e in x)])
+        if t is dict:
+            return show(["D", *[[self.ser_deep(a), self.ser_deep(b)] for a, b in x.items()]])
+        if t is types.MappingProxyType:
+            return show(["P", *[[self.ser_deep(a), self.ser_deep(b)] for a, b in x.items()]])
+        if isinstance(x, enum.Enum):
+            return self.ser(x)
+        if isinstance(x, self.u.State):
+            cid = next((i for i, c in self.cls.items() if c is t), "?")
+            return f"(I {cid}{''.join(f' ({k} {self.ser_deep(v)})' for k, v in vars(x).items())})"
+        if x in self.u.funcs:
+            return f"(C {self.u.funcs.index(x)})"
+        cid = next((i for i, c in self.cls.items() if c is t), None)
+        k = obj_key(x, cid)
+        return f"(O {cid} {k})" if k is not None else f"(X {t.__name__})"
+
+    def ser_deep_fields(self, inst, skip_missing=False) -> str:
+        from haiway import MISSING
+
+        return "".join(f" ({k} {self.ser_deep(v)})" for k, v in vars(inst).items()
+                       if not (skip_missing and v is MISSING))
+
     # ---- values
     def remember(self, obj, text: str):
         self.back[id(obj)] = text
@@ -447,6 +534,30 @@ def make_obj(cls, cid: int, k: int):
     return cls(k)
 
 
+def obj_key(x, cid):  # noqa: PLR0911
+    """inverse of make_obj"""
+    try:
+        if cid == C_UUID:
+            return x.int
+        if cid == C_DATE:
+            return (x - _dt.date(2020, 1, 1)).days
+        if cid == C_DATETIME:
+            return (x - _dt.datetime(2020, 1, 1)).days
+        if cid == C_TIME:
+            return x.hour
+        if cid == C_TIMEDELTA:
+            return x.days
+        if cid == C_TIMEZONE:
+            return int(x.utcoffset(None).total_seconds() // 3600)
+        if cid in (C_PATH, C_POSIXPATH):
+            return int(x.name[1:])
+        if cid in (C_OBJ1, C_OBJ2):
+            return x.k
+    except Exception:  # noqa: BLE001
+        return None
+    return None
+
+
 def exc_name(exc: BaseException) -> str:
     if isinstance(exc, ExceptionGroup):
         return "ExceptionGroup"
@@ -487,6 +598,7 @@ class Oracle:
         self.names = {n: c for n, c in field(top, "names")}
         self.specs = {(s[0], show(s[2:])): s[1] for s in field(top, "specs")}
         self.self_cls = self_cls
+        self.blame: str | None = None     # kind of the innermost term at which non-conformance was found
 
     def isinst(self, v, c: int) -> bool:
         k = class_of(v)
@@ -506,8 +618,14 @@ class Oracle:
             return [t[0], t[1], *[self.subst(x, env) for x in t[2:]]]
         return [t[0], *[self.subst(x, env) for x in t[1:]]]
 
-    def walk(self, t, v, env):  # noqa: C901, PLR0911, PLR0912
-        """-> (conforms, converted value or None)"""
+    def walk(self, t, v, env):
+        """-> (conforms, converted value or None); records the innermost blamed term kind in `self.blame`"""
+        r = self._walk(t, v, env)
+        if not r[0] and self.blame is None:
+            self.blame = t if isinstance(t, str) else t[0]
+        return r
+
+    def _walk(self, t, v, env):  # noqa: C901, PLR0911, PLR0912
         no = (False, None)
         if isinstance(t, str):
             if t == "any":
@@ -552,11 +670,13 @@ class Oracle:
         if k in ("union", "uor"):
             for a in t[1:]:
                 r = self.walk(a, v, env)
+                self.blame = None
                 if r[0]:
                     return r
             return no
         if k == "opt":
             r = self.walk(t[1], v, env)
+            self.blame = None
             return r if r[0] else ((v == "N"), v)
         if k in ("ann", "final"):
             return self.walk(t[1], v, env)
